@@ -278,9 +278,10 @@ def _q7p(e0, e1, e2, e3, e4, e5, f0, f1, f2, f3, f4, f5, rc0, rc1, rc2, rc3, sf,
     r = LP.pool_body((e0, e1, e2, e3, e4, e5, f0, f1, f2, f3, f4, f5, rc0, rc1, rc2, rc3, sf, lf))
     if r is None or r == "":
         return r
-    if r.startswith("[C11]") or r.startswith("unexpected"):
+    if r.startswith("unexpected"):
         return r
-    return ""
+    mine = [part for part in r.split(" | ") if part.startswith("[C11]")]
+    return " | ".join(mine)
 
 
 def q7p(e0: int, e1: int, e2: int, e3: int, e4: int, e5: int, f0: bool, f1: bool, f2: bool, f3: bool, f4: bool, f5: bool,
